@@ -26,6 +26,7 @@ KNOWN_HANG = "running-action-or-cleanup-not-interruptible"
 ASSUMPTIONS = [
     "the theorems are about the conductor LTS of Model/Conduct.v (errors abstracted to nil / cancelled / audit violation / other; a cleanup phase is one label) and the kill-protocol function cancel_cmd; process reaping, signal delivery and the wall-clock bound are OS behaviour, observed by the harness",
     "known finding running-action-or-cleanup-not-interruptible: termination and no-survivor are proved only under the hypothesis that redirected commands (actions, cleanups) end by themselves (_partial) and refuted without it (_refuted witnesses)",
+    "conductor stages follow commit 19d275f (a later stage reporting nil ahead of its turn is noted - its local channel set to nil - and conduct keeps waiting: label LPick at Sel1/Sel2 with watch flags). Termination in the model = every non-scene step decreases `measure` (48) + in every reachable non-returned state an obliged label is enabled (fairness); this covers every order and value in which the four components report and every select choice, but only for the channel expressions the model transcribes: a select that names the wrong (nil) channel, as in seed C07-c1, is outside the model and is caught end-to-end (signal while an action runs)",
     "Go's select may pick the scene timer although the prompter's context is cancelled (one more scene may start): not modelled (c07_no_scene_after_cancel_partial)",
     "end-to-end: the exit status is only required where the observations themselves show the fault happened at least 0.5 s before the play could have ended by itself; the status after SIGTERM is unconstrained (SIGTERM mid-play often yields 1: the quiesce SIGHUPs the spotlights before the prompter closed termCh)",
     "a signal delivered before the binary installed its handlers kills it by default action (exit -sig, nothing ran): accepted",
@@ -113,7 +114,7 @@ def run(tier, seed):
     res.coverage.update({
         "evaluations": summary["plays"],
         "distinct_nontrivial": summary["distinct_nontrivial"],
-        "rule": "one play of the 3-scene script `abc ..........` (2 actors, 2 spotlights, 1 auditor) per (fault kind, position / instant): none; action fails at a/b/c; spotlight fails at 0/130/260 ms; spotlight ignores SIGHUP (leader / child / background child); cleanup fails 1st / 2nd time; audit foul with -S at a/b/c; expression error with / without -S; SIGINT / SIGTERM at 7 instants; a command that never ends (sleep 300) while the play is stopped by SIGINT / SIGTERM / a failing peer / a failing spotlight / a foul, and a cleanup that never ends 1st / 2nd time (quick: a random subset of positions and instants, 2 of the never-ending ones); non-trivial = every injected fault; distinct by (fault, position)",
+        "rule": "one play of the 3-scene script `abc ..........` (2 actors, 2 spotlights, 1 auditor) per (fault kind, position / instant): none; action fails at a/b/c; spotlight fails at 0/130/260 ms; spotlight ignores SIGHUP (leader / child / background child); cleanup fails 1st / 2nd time; audit foul with -S at a/b/c; expression error with / without -S; SIGINT / SIGTERM at 7 instants; SIGINT / SIGTERM while a 3 s action runs (cast with / without spotlights); a spotlight whose leader ignores SIGHUP with the play ended by SIGINT / SIGTERM; -S foul during a long action with a chatty spotlight; the real runScene / prompt under a quiescing stopper (hook); a command that never ends (sleep 300) while the play is stopped by SIGINT / SIGTERM / a failing peer / a failing spotlight / a foul, and a cleanup that never ends 1st / 2nd time (quick: a random subset of positions and instants, 2 of the never-ending ones); non-trivial = every injected fault; distinct by (fault, position)",
         "samples": summary["samples"],
         "distribution": summary["distribution"],
         "traces_validated_against_impl": summary["plays"],
